@@ -89,8 +89,8 @@ def validate(ctx, proj, tag):
 # ------------------------------------------------------------------------------------------------
 def mc_trees(ctx):
     """exhaustive model checking of the design model; returns the emitted scope trees"""
-    cfgs = ['JsRenamer_quick.cfg', 'JsRenamer_withq.cfg'] if ctx.quick() else \
-        ['JsRenamer_thorough.cfg', 'JsRenamer_three.cfg', 'JsRenamer_with.cfg']
+    cfgs = ['JsRenamer_quick.cfg', 'JsRenamer_withq.cfg', 'JsRenamer_with3q.cfg'] if ctx.quick() else \
+        ['JsRenamer_thorough.cfg', 'JsRenamer_three.cfg', 'JsRenamer_with.cfg', 'JsRenamer_with3.cfg']
     w = max(2, min(8, vlib.JOBS // 2))
 
     def mc(cfg):
@@ -158,7 +158,11 @@ def build_cases(ctx, trees):
         for _ in range(3):
             add(G.hoisting(rnd), 'pressure/hoist')
         add(G.with_own(rnd), 'pressure/with')
+        for _ in range(3):
+            add(G.with_nested_then_scope(rnd), 'pressure/withnested')
         add(G.module_program(rnd), 'pressure/module')
+    for k in range(len(G.NESTED_FN) * len(G.LATER_SCOPE)):
+        add(G.with_nested_then_scope(rnd, k), 'pressure/withnested')
     # (3) random nestings
     for _ in range(450 if quick else 16000):
         add(G.random_program(rnd, maxdepth=rnd.choice([2, 3, 4])), 'random')
@@ -176,9 +180,8 @@ def build_cases(ctx, trees):
     return cases
 
 
-# a repository input is outside the quantifier when it contains the excluded construct of the known
-# finding (with) - decided on the INPUT text - or a function declaration nested in a block (sloppy-mode
-# Annex B.3.3 semantics are not modelled in JsScope)
+# a repository input is outside the quantifier when it has a function declaration nested in a block (sloppy-mode
+# Annex B.3.3 semantics are not modelled in JsScope).  Inputs with `with` are judged like all others.
 def drift(ctx, exe, trees):
     """D vs C (information only): the model's prediction with the real alphabet against the real output"""
     usable = [t for t in trees if not G.tree_uses_outer_from_with(t['units'])]
@@ -204,8 +207,6 @@ def drift(ctx, exe, trees):
 
 
 def repo_skip(c, e):
-    if re.search(r'\bwith\s*\(', c['src']):
-        return 'with'
     if e.get('blockfn'):
         return 'blockfn'
     return None
@@ -333,9 +334,8 @@ def run(ctx):
              '(3) declarations inside a class static block; (4) parameter defaults/patterns and array/object literals '
              'with identifiers inside an object-literal method written inside a parenthesised expression; (5) a '
              'function whose parameter default references a name that its body declares with var, or declares at all '
-             'when the function has a rest parameter. Repository inputs containing `with(` and those with a function '
-             'declaration nested in a block (Annex B.3.3 not modelled) are outside the quantifier: counted in '
-             'projection_status, not judged. Programs whose name-keeping output does not parse (var hoisted next to '
+             'when the function has a rest parameter. Repository inputs with a function declaration nested in a block '
+             '(Annex B.3.3 not modelled) are outside the quantifier: counted in projection_status, not judged. Programs whose name-keeping output does not parse (var hoisted next to '
              'a let of the same name - a C09 matter) have no reference world: counted in keep_output_unparseable, not judged',
         samples=samples,
     ))
